@@ -650,7 +650,9 @@ func (rt *RoutingTable) Clean() {
 			// Count entries in prefix.
 			if currentPrefix != rte.RoutingPrefix {
 				currentPrefix = rte.RoutingPrefix
-				rp, ok := rt.getRoutablePrefixConfig(rte.RoutingPrefix.Addr())
+				// Look the rule up by the destination, as AddRoute does: the base
+				// address of the routing prefix may belong to a more specific rule.
+				rp, ok := rt.getRoutablePrefixConfig(rte.DstIP)
 				if ok {
 					currentPrefixMax = rp.EntriesPerPrefix
 				} else {
